@@ -78,7 +78,11 @@ def impl_call(case):
         x['photon_rate'] = guarded(photon_rate)
         out['_x'] = x
         return out
-    return guarded(f)
+    out = guarded(f)
+    if case.get('_placed'):
+        from . import c06
+        out['_facts'] = guarded(lambda: c06.facts({'band': case['band'], 'other': case['src']}))
+    return out
 
 
 def model_case(case):
@@ -107,7 +111,32 @@ def neg_source(case):
     return lf['leaf'] == 'empirical' and lf.get('keep_neg') and any(unq(v) < 0 for v in lf['vals'])
 
 
+def oracle_admission(rep, case, out):
+    """disjoint always raises; an insufficiently overlapping band raises unless forced; judged from the excluded
+    throughput measured two ways (only where both agree about the 1 % threshold)"""
+    fx = out.get('_facts', {}).get('ok')
+    if not fx or fx.get('a') is None or fx.get('b') is None:
+        return
+    a1, a2 = fx['a']
+    b1, b2 = fx['b']
+    u = case['unit_name']
+    missing = (u in ('count', 'obmag') and case.get('area') is None) or (u == 'vegamag' and not case.get('vega'))
+    if a2 < b1 or b2 < a1:
+        if out.get('err') != 'DisjointError' and not (missing and out.get('err') == 'SynphotError'):
+            rep.oracle_fail('normalize:admission:disjoint:%s' % (out.get('err') or 'returned'),
+                            'the band is disjoint from the source (force=%s): DisjointError expected' % case['force'], case, out)
+        return
+    if (a1 >= b1 and a2 <= b2) or not fx.get('total'):
+        return
+    fr = [fx['excl_coarse'] / fx['total'], fx['excl_fine'] / fx['total']]
+    if all(x > 0.01 * (1 + 1e-9) for x in fr) and not case['force']:
+        if out.get('err') != 'PartialOverlap' and not (missing and out.get('err') == 'SynphotError'):
+            rep.oracle_fail('normalize:admission:insufficient_overlap:%s' % (out.get('err') or 'returned'),
+                            '%.4g of the band throughput lies outside the source and force=False: PartialOverlap expected' % fr[0], case, out)
+
+
 def oracle(rep, case, out):
+    oracle_admission(rep, case, out)
     u = case['unit_name']
     needs_area = u in ('count', 'obmag')
     needs_vega = u == 'vegamag'
@@ -159,9 +188,34 @@ def oracle(rep, case, out):
         rep.oracle_fail('normalize:%s%s:target_not_reached' % (u, xw), 'effstim of the normalised spectrum is %r, target %r' % (pe['ok'], tgt), case, out)
 
 
+def gen_placed(rng):
+    """an untapered source table and a bandpass table in a graded or disjoint placement (C06's families)"""
+    from . import c06
+    if rng.random() < 0.7:
+        c = c06.gen_grading(rng, None, 1)[0]
+        return c['other'], c['band'], 'graded:' + c['_kind']
+    def run_of(start, n, lo_step, hi_step, sign=1):
+        pts = [start]
+        for _ in range(n - 1):
+            pts.append(pts[-1] + sign * O.dy(rng, lo_step, hi_step, 0))
+        return sorted(pts)
+    bpts = run_of(O.dy(rng, 3000, 5000, 0), rng.randint(2, 5), 50, 400)
+    gap = O.dy(rng, 1, 2000, 0)
+    if rng.random() < 0.5:
+        spts = run_of(bpts[-1] + gap, rng.randint(2, 4), 20, 300)
+    else:
+        spts = run_of(bpts[0] - gap, rng.randint(2, 4), 20, 300, sign=-1)
+    band = {'prim': 'bandpass', 'leaf': c06.table_on(bpts, False, rng)}
+    src = {'prim': 'source', 'leaf': c06.table_on(spts, False, rng)}
+    return O.fill_ss(src), band, 'disjoint'
+
+
 def gen_case(rng, K, thorough):
     src, band = c07.gen_pair(rng)
-    r = rng.random()
+    placed = None
+    if rng.random() < 0.25:
+        src, band, placed = gen_placed(rng)
+    r = rng.random() if placed is None else 1.0
     if r < 0.2:
         src = O.gen_prim(rng, 'source', transcendental=False)
         O.fill_ss(src)
@@ -179,8 +233,10 @@ def gen_case(rng, K, thorough):
         c['area'] = q(10 ** rng.uniform(1, 5))
     if u == 'vegamag' and rng.random() < 0.92 or rng.random() < 0.05:
         c['vega'] = vega_prim()
-    if rng.random() < 0.2:
+    if rng.random() < 0.2 and placed is None:
         c['wl'] = qs(O.sample_grid(rng, rng.randint(3, 12), 1500, 9000))
+    if placed is not None:
+        c['_placed'] = placed
     return c
 
 
